@@ -59,7 +59,7 @@ func (tmgc *TCPMuxGroupCtl) Listen(
 		tmgc.groups[group] = tcpMuxGroup
 	}
 	tmgc.mu.Unlock()
-	verifhook.At("group.lookedup", "kind", "tcpmux", "group", group, "obj", verifhook.ID(tcpMuxGroup), "created", !ok, "member", routeConfig.Domain)
+	verifhook.At("group.lookedup", "kind", "tcpmux", "group", group, "obj", verifhook.ID(tcpMuxGroup), "created", !ok, "member", "", "key", groupKey, "param", routeConfig.Domain+"|"+routeConfig.RouteByHTTPUser+"|"+routeConfig.Username+"|"+routeConfig.Password)
 
 	switch v1.TCPMultiplexerType(multiplexer) {
 	case v1.TCPMultiplexerHTTPConnect:
